@@ -248,6 +248,26 @@ Theorem C13_swisscard2_stdout : forall flag acct recs,
 Proof. exact swisscard2_stdout. Qed.
 Print Assumptions C13_swisscard2_stdout.
 
+(* postfinance: key/value lines, the column header, well-formed booking rows, one further record,
+   one-field disclaimer lines (pf_parts cuts the records up accordingly), the currency named by
+   the key/value lines valid; per row the amount as written booked from Expenses:TBD to the
+   account.  With the debugging statement (dbg = true, F13) the record after the rows precedes the
+   journal.  (C13_postfinance_stdout above is the older theorem about the debugging line.) *)
+Theorem C13_postfinance_statement_stdout : forall dbg flag acct recs,
+  account_flag flag = AAcc acct -> pf_statement_wf recs = true ->
+  exists out, pf_statement_output acct recs = Some out /\
+    run_postfinance dbg flag (map CRec recs) = mkRun (pf_debug_line dbg (pf_after_rows recs) ++ out) SOk.
+Proof. exact postfinance_stdout. Qed.
+Print Assumptions C13_postfinance_statement_stdout.
+
+(* the statement of the golden test in miniature: one key/value line, header, one row, disclaimer *)
+Example C13_postfinance_statement_wf :
+  let row := [[48;56;46;48;51;46;50;48;50;50]; [100]; []; [45;49;57]; [102]; [98]; [48;56;46;48;51;46;50;48;50;50]; []]%Z in
+  pf_statement_wf [[s_waehr; [61;34;69;85;82;34]]; [[66]]; row; [[68]]; [[69]]]%Z = true /\
+  pf_parts [[s_waehr; [61;34;69;85;82;34]]; [[66]]; row; [[68]]; [[69]]]%Z =
+    Some ([[s_waehr; [61;34;69;85;82;34]]], [[66]], [row], [[68]], [[[69]]])%Z.
+Proof. vm_compute. split; reflexivity. Qed.
+
 (* swisscard: the importer's one-pass replacer = remove every "CHF", then every "'" *)
 Theorem C13_swisscard_amount_text : forall s, sc_clean s = sc_amount_text s.
 Proof. exact sc_clean_spec. Qed.
